@@ -66,17 +66,19 @@ package spynode
 //@   requires node != nil && tx != nil
 //@   given forall(k, 0, len(tx.TxOut), tx.TxOut[k] != nil) && forall(k, 0, len(tx.TxIn), tx.TxIn[k] != nil)
 //@   assumes value: result == Relevant(tx)
-//@   loop 0 invariant 0 <= _i && _i <= len(tx.TxOut) && fbase(node, tx) && outsClear(node, tx, _i)
-//@   loop 1 invariant r != nil && intact(r) && 0 <= rpos(r) && rpos(r) <= ntok(r) && mirrors(r, lockblob(output)) && noHit(node, lockblob(output), rpos(r)) && fbase(node, tx)
+// the subscription list is read under its lock for the whole walk (an unsubscribe shifts the entries in
+// place; a walk over a snapshot of the slice header taken under the lock would race with it)
+//@   loop 0 invariant held(node.pushDataLock) && 0 <= _i && _i <= len(tx.TxOut) && fbase(node, tx) && outsClear(node, tx, _i)
+//@   loop 1 invariant held(node.pushDataLock) && r != nil && intact(r) && 0 <= rpos(r) && rpos(r) <= ntok(r) && mirrors(r, lockblob(output)) && noHit(node, lockblob(output), rpos(r)) && fbase(node, tx)
 //@   loop 1 invariant 0 <= _i0 && _i0 < len(tx.TxOut) && output == tx.TxOut[_i0] && outsClear(node, tx, _i0)
-//@   loop 2 invariant 0 <= _i && _i <= len(node.pushDataHashes) && forall(k, 0, _i, node.pushDataHashes[k] != hash) && fbase(node, tx)
+//@   loop 2 invariant held(node.pushDataLock) && 0 <= _i && _i <= len(node.pushDataHashes) && forall(k, 0, _i, node.pushDataHashes[k] != hash) && fbase(node, tx)
 //@   loop 2 invariant r != nil && intact(r) && 1 <= rpos(r) && rpos(r) <= ntok(r) && mirrors(r, lockblob(output)) && sinceloop(rpos(r) == old(rpos(r))) && noHit(node, lockblob(output), rpos(r) - 1)
 //@   loop 2 invariant 0 <= _i0 && _i0 < len(tx.TxOut) && output == tx.TxOut[_i0] && outsClear(node, tx, _i0)
 //@   loop 2 invariant tokkindb(lockblob(output), rpos(r) - 1) == 7 && hash == pushhash(tokvalb(lockblob(output), rpos(r) - 1))
-//@   loop 3 invariant 0 <= _i && _i <= len(tx.TxIn) && fbase(node, tx) && outsClear(node, tx, len(tx.TxOut)) && insClear(node, tx, _i)
-//@   loop 4 invariant r != nil && intact(r) && 0 <= rpos(r) && rpos(r) <= ntok(r) && mirrors(r, unlockblob(input)) && noHit(node, unlockblob(input), rpos(r)) && fbase(node, tx)
+//@   loop 3 invariant held(node.pushDataLock) && 0 <= _i && _i <= len(tx.TxIn) && fbase(node, tx) && outsClear(node, tx, len(tx.TxOut)) && insClear(node, tx, _i)
+//@   loop 4 invariant held(node.pushDataLock) && r != nil && intact(r) && 0 <= rpos(r) && rpos(r) <= ntok(r) && mirrors(r, unlockblob(input)) && noHit(node, unlockblob(input), rpos(r)) && fbase(node, tx)
 //@   loop 4 invariant 0 <= _i3 && _i3 < len(tx.TxIn) && input == tx.TxIn[_i3] && insClear(node, tx, _i3) && outsClear(node, tx, len(tx.TxOut))
-//@   loop 5 invariant 0 <= _i && _i <= len(node.pushDataHashes) && forall(k, 0, _i, node.pushDataHashes[k] != hash) && fbase(node, tx)
+//@   loop 5 invariant held(node.pushDataLock) && 0 <= _i && _i <= len(node.pushDataHashes) && forall(k, 0, _i, node.pushDataHashes[k] != hash) && fbase(node, tx)
 //@   loop 5 invariant r != nil && intact(r) && 1 <= rpos(r) && rpos(r) <= ntok(r) && mirrors(r, unlockblob(input)) && sinceloop(rpos(r) == old(rpos(r))) && noHit(node, unlockblob(input), rpos(r) - 1)
 //@   loop 5 invariant 0 <= _i3 && _i3 < len(tx.TxIn) && input == tx.TxIn[_i3] && insClear(node, tx, _i3) && outsClear(node, tx, len(tx.TxOut))
 //@   loop 5 invariant tokkindb(unlockblob(input), rpos(r) - 1) == 7 && hash == pushhash(tokvalb(unlockblob(input), rpos(r) - 1))
